@@ -95,9 +95,32 @@ func (e *Engine) positionChecks(s *Sys, q *ecs.Query, oq *OpenQ) *Violation {
 	if oq != nil && oq.NewTypes&^me.Cs != 0 {
 		return e.v(s, "batch-diff", "batch query entity %v lacks components %v that the batch added", h, listOf(oq.NewTypes&^me.Cs))
 	}
-	if r := e.M.relOf(me.Cs); r >= 0 && s.Reg[r] {
+	myRel := e.M.relOf(me.Cs)
+	if r := myRel; r >= 0 && s.Reg[r] {
 		if got := q.Relation(s.IDs[r]); got != me.Target {
 			return e.v(s, "query-pos", "Query.Relation for %v = %v, model %v", h, got, me.Target)
+		}
+	}
+	// relation call on a component the entity lacks or that is not a relation: documented to panic (at most two
+	// types per position, rotating with the step counter)
+	tried := 0
+	for i := range s.Reg {
+		t := (i + e.step) % len(s.Reg)
+		if !s.Reg[t] || t == myRel || tried >= 2 {
+			continue
+		}
+		tried++
+		panicked := func() (p bool) {
+			defer func() { p = recover() != nil }()
+			q.Relation(s.IDs[t])
+			return
+		}()
+		if !panicked {
+			return e.v(s, "no-panic", "Query.Relation(type %d) for %v did not panic (entity has it: %v, relation type: %v)", t, h, me.Has(t), e.M.RelMask&(1<<uint(t)) != 0)
+		}
+		e.St.Faults["illegal:query-relation"]++
+		if q.Entity() != h {
+			return e.v(s, "query-pos", "a refused Query.Relation call moved the query from %v to %v", h, q.Entity())
 		}
 	}
 	return nil
